@@ -10,7 +10,9 @@ cfg   = [wrap, margins, [top, bottom, left, right], [pk, first, cont, var], tabs
           pk 0: get_line_prefix=None; pk 1: prefix(l, k) = (first if k == 0 else cont) + '#' * ((l + k) % 2 if var else 0)
           tabstop 0: no TabsProcessor;  bflag 1: BeforeInput(before)
 chartab = [[code, source_width, display_width, display_string], ...]   (as the implementation measures them)
-states  = [[W, H, xpos, ypos, text, cursor], ...]
+states  = [[W, H, xpos, ypos, text, cursor], ...]   or  [W, H, xpos, ypos, text, cursor, cfg']:
+          cfg' = a NEW configuration in force from this state on; the SAME Window object is
+          reconfigured (filters / public attributes), its scroll state carries over
 """
 import asyncio
 
@@ -38,9 +40,20 @@ def make_chartab(cfg, states):
     chars = set(" #" + TABCH1 + TABCH2)
     for st in states:
         chars.update(unS(st[4]))
+        if len(st) > 6:
+            chars.update(unS(st[6][3][1]) + unS(st[6][3][2]) + unS(st[6][5][1]))
     chars.update(unS(cfg[3][1]) + unS(cfg[3][2]) + unS(cfg[5][1]))
     chars.discard("\n")
     return [[ord(c)] + char_info(c) for c in sorted(chars)]
+
+
+def eff_cfg(case, j):
+    """The configuration in force at state j of a case (the last one given up to j)."""
+    cfg = case[0]
+    for st in case[2][:j + 1]:
+        if len(st) > 6:
+            cfg = st[6]
+    return cfg
 
 
 class Window11:
@@ -56,6 +69,26 @@ class Window11:
         from prompt_toolkit.layout.margins import NumberedMargin, ScrollbarMargin
         from prompt_toolkit.layout.processors import BeforeInput, TabsProcessor
         from prompt_toolkit.output import DummyOutput
+        from prompt_toolkit.filters import Condition
+        self.buf = Buffer()
+        self.ctl = BufferControl(buffer=self.buf, input_processors=[])
+        self._mods = (NumberedMargin, ScrollbarMargin, BeforeInput, TabsProcessor)
+        self.cfg = cfg
+        # wrap mode, allow_scroll_beyond_bottom: filters; scroll offsets: callables (the documented
+        # ways to change them on a live Window); margins, get_line_prefix, input_processors: the
+        # public attributes, set by reconfigure()
+        self.win = Window(self.ctl, wrap_lines=Condition(lambda: bool(self.cfg[0])),
+                          allow_scroll_beyond_bottom=Condition(lambda: bool(self.cfg[6])),
+                          scroll_offsets=ScrollOffsets(top=lambda: self.cfg[2][0], bottom=lambda: self.cfg[2][1],
+                                                       left=lambda: self.cfg[2][2], right=lambda: self.cfg[2][3]))
+        self._numbered = NumberedMargin()
+        self._scrollbar = ScrollbarMargin()
+        self.reconfigure(cfg)
+        self.app = Application(layout=Layout(self.win), output=DummyOutput(), input=DummyInput())
+
+    def reconfigure(self, cfg):
+        """Put a (new) configuration in force on the SAME Window / BufferControl objects."""
+        NumberedMargin, ScrollbarMargin, BeforeInput, TabsProcessor = self._mods
         wrap, margin, offs, pf, tabstop, (bflag, before), allow = cfg
         self.cfg = cfg
         procs = []
@@ -63,18 +96,10 @@ class Window11:
             procs.append(BeforeInput(unS(before)))
         if tabstop:
             procs.append(TabsProcessor(tabstop=tabstop, char1=TABCH1, char2=TABCH2))
-        self.buf = Buffer()
-        self.ctl = BufferControl(buffer=self.buf, input_processors=procs)
-        glp = None
-        if pf[0]:
-            glp = lambda l, k: prefix_text(pf, l, k)  # noqa
-        self.win = Window(self.ctl, wrap_lines=bool(wrap),
-                          left_margins=[NumberedMargin()] if margin & 1 else [],
-                          right_margins=[ScrollbarMargin()] if margin & 2 else [],
-                          allow_scroll_beyond_bottom=bool(allow),
-                          scroll_offsets=ScrollOffsets(top=offs[0], bottom=offs[1], left=offs[2], right=offs[3]),
-                          get_line_prefix=glp)
-        self.app = Application(layout=Layout(self.win), output=DummyOutput(), input=DummyInput())
+        self.ctl.input_processors = procs
+        self.win.left_margins = [self._numbered] if margin & 1 else []
+        self.win.right_margins = [self._scrollbar] if margin & 2 else []
+        self.win.get_line_prefix = (lambda l, k: prefix_text(pf, l, k)) if pf[0] else None
 
     def render(self, st):
         """-> (canonical result, observation dict for the oracle)"""
@@ -83,8 +108,10 @@ class Window11:
         from prompt_toolkit.layout.mouse_handlers import MouseHandlers
         from prompt_toolkit.layout.screen import Screen, WritePosition
         from prompt_toolkit.formatted_text.utils import fragment_list_to_text
-        W, H, xpos, ypos, text, cursor = st
+        W, H, xpos, ypos, text, cursor = st[:6]
         text = unS(text)
+        if len(st) > 6:
+            self.reconfigure(st[6])
         with set_app(self.app):
             self.buf.set_document(Document(text, cursor), bypass_readonly=True)
             scr = Screen()
@@ -194,11 +221,15 @@ def impl_cases(cases, on_state=None, retried=None):
                     cache.clear()
                 w = cache[key] = Window11(cfg)
             for attempt in (0, 1):
+                w.reconfigure(cfg)
                 w.win.reset()
                 prev = (0, 0, 0)
                 out = []
                 pend = []
+                ecfg = cfg
                 for si, st in enumerate(states):
+                    if len(st) > 6:
+                        ecfg = st[6]          # the configuration in force from this state on
                     res, obs = _render_guarded(w, st)
                     if obs is not None:
                         obs["prev"] = prev
@@ -206,7 +237,7 @@ def impl_cases(cases, on_state=None, retried=None):
                     else:
                         prev = (w.win.vertical_scroll, w.win.vertical_scroll_2, w.win.horizontal_scroll)
                     out.append(res)
-                    pend.append((ci, si, cfg, st, res, obs))
+                    pend.append((ci, si, ecfg, st, res, obs))
                 # the watchdog is a wall-clock timer: on a loaded machine it can fire on a
                 # 0.3 ms render.  Re-run the whole history once on a fresh window; a real
                 # non-termination fires again and is reported (status 98).
